@@ -10,6 +10,8 @@
 #include "tb_adapter.hpp"
 #include "textio.hpp"
 #include "moveGen.hpp"
+#include "posutil.hpp"
+#include <set>
 
 namespace sess { bool ttIndexViolation(std::string& detail); }
 using vf::Rng;
@@ -215,6 +217,41 @@ const char* mateInOneFens[] = {
     "2kr4/ppp5/8/8/8/8/8/R3K2R w KQ - 0 1",
 };
 
+// King behind a wall of pawns on their start rank, attacked by sliders: checks along ranks and diagonals that only a
+// pawn move (single or double step) can block, quiet king steps, back-rank patterns.
+static bool pawnWall(Rng& r, pg::GenPos& gp) {
+    for (int attempt = 0; attempt < 30; attempt++) {
+        Position q;
+        for (int sq = 0; sq < 64; sq++) q.setPiece(Square(sq), Piece::EMPTY);
+        std::set<int> used;
+        auto put = [&](int sq, int piece) { if (sq < 0 || sq > 63 || used.count(sq)) return false; used.insert(sq); q.setPiece(Square(sq), piece); return true; };
+        int bkFile = (int)r.below(8);
+        put((r.chance(0.8) ? 56 : 48) + bkFile, Piece::BKING);
+        int nWall = (int)r.range(2, 6);
+        for (int i = 0; i < nWall; i++) put(48 + (int)r.below(8), Piece::BPAWN);            // start rank
+        for (int i = 0, n = (int)r.below(3); i < n; i++) put(40 + (int)r.below(8), Piece::BPAWN);
+        static const int bMinor[] = {Piece::BBISHOP, Piece::BKNIGHT, Piece::BROOK};
+        for (int i = 0, n = (int)r.below(3); i < n; i++) put(40 + (int)r.below(24), bMinor[r.below(3)]);
+        put((int)r.below(16), Piece::WKING);
+        static const int wSl[] = {Piece::WQUEEN, Piece::WQUEEN, Piece::WROOK, Piece::WBISHOP, Piece::WROOK};
+        for (int i = 0, n = (int)r.range(1, 3); i < n; i++) put((int)r.below(40), wSl[r.below(5)]);
+        for (int i = 0, n = (int)r.below(4); i < n; i++) put(8 + (int)r.below(8), Piece::WPAWN);
+        q.setWhiteMove(r.chance(0.7));
+        q.setCastleMask(0);
+        if (r.chance(0.5)) q = PosUtil::swapColors(q);
+        try {
+            Position chk = TextIO::readFEN(TextIO::toFEN(q));
+            std::vector<Move> lm;
+            uci::legalMoves(chk, lm);
+            if (lm.empty()) continue;
+            gp.positionCmd = "position fen " + TextIO::toFEN(chk);
+            pg::finish(gp, chk);
+            return true;
+        } catch (const ChessParseError&) {}
+    }
+    return false;
+}
+
 void genC04(uint64_t seed, int tier, Scenario& sc) {
     Rng r(seed, 1), rk(seed, 2);
     sc.cls = "C04";
@@ -239,6 +276,9 @@ void genC04(uint64_t seed, int tier, Scenario& sc) {
             gp.positionCmd = "position fen " + fen;
             try { pg::finish(gp, TextIO::readFEN(fen)); } catch (...) { pg::sparse(r, 4, true, 0, gp); }
             maxDepth = 6;
+        } else if (kind < 65) {
+            if (!pawnWall(r, gp)) pg::sparse(r, 6, false, 0, gp);
+            maxDepth = tier > 0 ? 8 : 6;
         } else if (kind < 85) {
             // sparse positions with unbalanced material: short forced mates are frequent
             pg::sparse(r, (int)r.range(5, 9), r.chance(0.4), 0, gp);
